@@ -261,3 +261,7 @@ Proof.
       unfold L; apply in_or_app; right; apply in_or_app; left; assumption. }
   rewrite (effects_isolated _ _ _ _ o2 _ _ _ _ Hp Hsz D S2 Hd). reflexivity.
 Qed.
+
+(* a lock-wrapped object rebuilt from its pickled state has the same lock and the same storage *)
+Theorem rebuild_wrapper_same w : rebuild_wrapper (reduce_wrapper w) = w.
+Proof. destruct w as [[b sz] l]. reflexivity. Qed.
